@@ -491,6 +491,7 @@ fn tcp_script(t: &[&str], salt: u64) -> Option<crate::e2e::TcpScript> {
         down,
         target_closes_first: kv(t, "close") == Some("target") || kv(t, "close") == Some("target-idle"),
         hold: kv(t, "close") == Some("target-idle"),
+        slow_target: kv(t, "slow") == Some("1"),
         target: kv(t, "target").unwrap_or("up").to_owned(),
         cut_after: kv(t, "cut").and_then(|x| x.parse().ok()),
         reset: kv(t, "reset").map(|x| x.to_owned()),
